@@ -32,7 +32,6 @@ import OSProofs.MonoArithInst
 #print axioms OS.truncRounding
 #print axioms OS.truncRounding_lossy
 #print axioms OS.truncRounding_ne_id
-#print axioms OS.MonoArith.fl1_gammaNonneg_of_tag
 #print axioms OS.FL_C10_nonneg
 #print axioms OS.FL_C10_le_one_many
 #print axioms OS.FL_C10_range_many
